@@ -40,6 +40,8 @@ def effdim(cov):
         )
     eigval[eigval < 0.0] = 0.0
     eigval /= sum(eigval)
+    # a vanishing eigenvalue does not contribute to the entropy (0 log 0 = 0)
+    eigval = eigval[eigval > 0.0]
     eigval *= np.log(eigval)
 
     return np.exp(-sum(eigval))
